@@ -5,6 +5,7 @@ import SqiProofs.QuatLattice
 import SqiProofs.QuatContains
 import SqiProofs.QuatLatMul
 import SqiProofs.QuatIndex
+import SqiProofs.QuatDual
 /- C14 — "Quaternion algebra and lattice arithmetic is exact and canonical".
    Property theorems about the hand model `SqiModel.Quat` (tie H: the model's executable definitions are run
    against the C functions of algebra.c / dim4.c / lattice.c on every check run by tools/props/c14.py).
@@ -122,6 +123,19 @@ theorem lattice_equal_exact (l1 l2 : Lattice) (h1 : l1.denom ≠ 0) (h2 : l2.den
     ℤ-submodules of `H p`) -/
 theorem lattice_mul_exact (p : ℤ) (l1 l2 : Lattice) (h1 : l1.denom ≠ 0) (h2 : l2.denom ≠ 0) :
     hLat p (latMul p l1 l2) = hLat p l1 * hLat p l2 ∧ (latMul p l1 l2).denom ≠ 0 := latMul_spec p l1 l2 h1 h2
+
+/-- `quat_lattice_dual_without_hnf` returns the dual lattice {y | ⟨x,y⟩ ∈ ℤ ∀ x ∈ L} (standard pairing), and
+    dualising twice gives L back -/
+theorem lattice_dual_exact (l : Lattice) (hd : l.denom ≠ 0) (hdet : (toMatrix l.basis).det ≠ 0) :
+    ratLat (latDualNoHnf l) = Dual (ratLat l) ∧ Dual (ratLat (latDualNoHnf l)) = ratLat l :=
+  ⟨(latDual_spec l hd hdet).1, (latDual_spec l hd hdet).2.1⟩
+
+/-- `quat_lattice_intersect` returns L₁ ∩ L₂ with an HNF basis, for full-rank lattices with arbitrary
+    (different, negative) denominators -/
+theorem lattice_intersect_exact (l1 l2 : Lattice) (h1 : l1.denom ≠ 0) (h2 : l2.denom ≠ 0)
+    (hd1 : (toMatrix l1.basis).det ≠ 0) (hd2 : (toMatrix l2.basis).det ≠ 0) :
+    ratLat (latIntersect l1 l2) = ratLat l1 ⊓ ratLat l2 ∧ (latIntersect l1 l2).denom ≠ 0 ∧
+    IsHNF (latIntersect l1 l2).basis := latIntersect_spec l1 l2 h1 h2 hd1 hd2
 
 /-- `quat_lattice_index` is the covolume ratio (the index when sub ⊆ over), for triangular bases -/
 theorem lattice_index_exact (sub over : Lattice) (hs : sub.denom ≠ 0) (ho : over.denom ≠ 0)
